@@ -355,7 +355,7 @@ PROPS = {
         "assumptions": ["every child answers each EVENT with one OK and each COUNT with one COUNT (the property's quantifier), for the same key in request order"],
     },
     "C10": {
-        "lean_modules": ["MocProps.C10", "MocProps.C10Filter"], "theorem_files": ["MocProps/C10.lean", "MocProps/C10Filter.lean"],
+        "lean_modules": ["MocProps.C10", "MocProps.C10Filter", "MocProps.C10DED"], "theorem_files": ["MocProps/C10.lean", "MocProps/C10Filter.lean", "MocProps/C10DED.lean"],
         "gen_groups": ["Codec", "Consts"], "harness_prop": "codec", "driver_prop": "codec",
         "monitors": ["nopanic", "roundtrip"],
         "n_quick": 40000, "n_thorough": 400000, "thorough_seeds": 3,
@@ -365,7 +365,10 @@ PROPS = {
                       "machine-readable ones: ok_roundtrip_known, closed_roundtrip_known, from parsePrefix_join / parsePrefix_known), with decode-encode-decode = decode for OK (ok_dec_enc_dec); "
                       "arities, labels, key tests and the prefix order are regenerated. Filters round trip for every filter whose tag conditions are non-empty with distinct single ASCII letter names and whose integers fit an int64 - all seven members, "
                       "present or absent (filter_roundtrip; the byte-level tag-key test accepts exactly '#'+letter: isTagKey_hash), hence REQ and COUNT with any non-empty filter list "
-                      "(req_count_roundtrip). Decode-encode-decode of the other types and panic-freedom of the Go code on arbitrary bytes are runtime-validated: every "
+                      "(req_count_roundtrip). DECODE-ENCODE-DECODE = DECODE is proved for EVERY accepted tree of every type, with no well-formedness hypothesis on the value (C10DED): events "
+                      "(event_dec_enc_dec: the decoder only lets int64s through), filters (filter_dec_enc_dec via decodeFilter_rt and isTagKey_inv: the byte-level key test accepts ONLY '#'+ASCII letter, "
+                      "names of distinct keys are distinct), client EVENT/AUTH/CLOSE/REQ/COUNT, server EVENT/EOSE/NOTICE/AUTH/OK/CLOSED/COUNT (count payload never above 2^64-1). "
+                      "Panic-freedom of the Go code on arbitrary bytes is runtime-validated: every "
                       "generated text is decoded by the real code under recover and compared with the model value by value (0 differences required).",
         "level_note": "Trusted: Lean kernel + standard axioms; go2lean; harness/driver; encoding/json's tokenizer, string unescaping, UTF-8 repair and reflection encoder (the tree handed to "
                       "the model is produced by Go's own decoder). A bare top-level `null` (a no-op by Go's Unmarshaler convention) is outside the claim.",
